@@ -20,7 +20,7 @@ func judgeLoad(f *Forest, res LoadResult) (clauses []string, details []map[strin
 		return
 	}
 	if res.Err != nil {
-		add("load-fails", map[string]any{"error": res.Err.Error()})
+		add("load-fails [kind="+f.Kind+" shape="+f.Shape+"]", map[string]any{"error": res.Err.Error()})
 		return
 	}
 	want := ref.Expand(f.Files, f.RootLoc, f.Files[f.RootLoc], expandDepth)
@@ -32,7 +32,7 @@ func judgeLoad(f *Forest, res LoadResult) (clauses []string, details []map[strin
 				clause = "every-ref-resolved"
 			}
 		}
-		add(clause, map[string]any{"diff(loaded vs reference)": diffs})
+		add(clause+" [kind="+f.Kind+" shape="+f.Shape+"]", map[string]any{"diff(loaded vs reference)": diffs})
 	}
 	return
 }
